@@ -114,13 +114,20 @@ func filename(p *ast.Position, config *config.Config) string {
 	return strings.ReplaceAll(filenameTempl, "{name}", name)
 }
 
-func addBuild(filename string, p *ast.Position, data *Data, builds *map[string]*Data) {
+func addBuild(name string, p *ast.Position, data *Data, builds *map[string]*Data) {
 	buildConfig := *data.Config
 	if p != nil {
+		// schema files with the same base name share one generated file, which then
+		// carries the directives of all of them
 		buildConfig.Sources = []*ast.Source{p.Src}
+		for _, src := range data.Config.Sources {
+			if src != p.Src && filename(&ast.Position{Src: src}, data.Config) == name {
+				buildConfig.Sources = append(buildConfig.Sources, src)
+			}
+		}
 	}
 
-	(*builds)[filename] = &Data{
+	(*builds)[name] = &Data{
 		Config:           &buildConfig,
 		QueryRoot:        data.QueryRoot,
 		MutationRoot:     data.MutationRoot,
